@@ -1,12 +1,17 @@
 #!/bin/bash
-# Builds the framework offline from files on disk: warms the Go build cache for /repo (+verif tag) and all check binaries.
+# Builds the framework offline from files on disk: warms the Go build cache for /repo (+verif tag) and the claimed check binaries.
 set -u
 HERE="$(cd "$(dirname "$0")" && pwd)"
 . "$HERE/env.sh"
 mkdir -p "$HERE/.bin" "$HERE/evidence"
 cd "$HERE/harness" || exit 1
-go build -tags verif ./... || exit 1
-for d in cmd/*/; do
-  if [ -f "$d/RACE" ]; then go build -race -tags verif -o /dev/null "./$d" || exit 1; fi
+go build -tags verif ./internal/... || exit 1
+rc=0
+for id in $(cat "$HERE/claimed.txt"); do
+  d="cmd/$(echo "$id" | tr 'A-Z' 'a-z')"
+  [ -d "$d" ] || { echo "missing $d"; rc=1; continue; }
+  RACE=""; [ -f "$d/RACE" ] && RACE="-race"
+  go build $RACE -tags verif -o "$HERE/.bin/$(basename $d)" "./$d" || rc=1
 done
-echo setup ok
+[ $rc -eq 0 ] && echo setup ok
+exit $rc
